@@ -36,7 +36,7 @@ LEVEL_NOTE = "Bounded: five rates, charts of <=5 notes and 2 tempo points on a q
 RATES = [0.5, 1.0, 1.5, 2.0, 4.0 / 3.0]
 REL = 1e-12
 TIME_META = {"OsuMap": ["preview_time"], "SMMapSet": ["sample_start", "sample_length", "offset"]}
-PRE = [None, "stack", "rate2"]
+PRE = [None, "stack", "rate2", "used"]
 SM_SHIFT = 500.0
 
 
@@ -61,7 +61,7 @@ def pairs(tier):
 
 
 def bound(tier, seed):
-    return dict(subjects=len(subjects(tier)), rates=RATES, composition_pairs=len(pairs(tier)), earlier_operations=["none", "stack().offset += 0 (relabels rows)", "rate(2)"], file_roundtrip_games=["osu", "qua", "sm", "bms"])
+    return dict(subjects=len(subjects(tier)), rates=RATES, composition_pairs=len(pairs(tier)), earlier_operations=["none", "stack().offset += 0 (relabels rows)", "rate(2)", "rate+write once, then edit offsets and bpm in place"], file_roundtrip_games=["osu", "qua", "sm", "bms"])
 
 
 def roots(tier, seed):
@@ -84,6 +84,21 @@ def build(kind, g, v, pre):
         s.offset += 0
     elif pre == "rate2":
         x = x.rate(2.0)
+    elif pre == "used":
+        # second use of the same objects: rate and write once (anything cached is now warm), then edit the lists in place
+        x.rate(2.0)
+        try:
+            if g in ("osu", "qua", "bms") and kind == "map":
+                x.write()
+            elif g == "sm" and kind == "set":
+                x.write()
+        except Exception:
+            pass
+        s = x.stack()
+        s.offset += 250
+        s.bpm *= 2
+        if g == "sm" and kind == "set":
+            x.offset = x.offset + 250
     return x
 
 
@@ -258,9 +273,11 @@ def check_file(kind, g, y, site, case, ctx):
         return
     for ci, (m, b) in enumerate(zip(maps, bmaps)):
         bp = charts.bpms_of(m)
+        # BMS has no global offset: measure 0 of the file is the chart's first tempo point (DESIGN 7.9)
+        base = bp[0][0] if (g == "bms" and bp) else 0.0
         slow = min((x[1] for x in bp), default=120.0)
         tol = 1.0 if g in ("osu", "qua") else max(1.0, 60000.0 / slow / 96.0)
-        en, gn = charts.notes_of(m), charts.notes_of(b)
+        en, gn = [(t - base, c, l) for t, c, l in charts.notes_of(m)], charts.notes_of(b)
         ok = len(en) == len(gn)
         if ok:
             # match greedily by column then time
@@ -270,5 +287,5 @@ def check_file(kind, g, y, site, case, ctx):
                     ok = False
         ctx.check("file.timeline", ok, site=dict(site, what="notes"), case=case, observed=gn, expected=en)
         bt = [t for t, _ in charts.bpms_of(b)]
-        miss = [t for t, _ in bp if not any(abs(t - u) <= tol for u in bt)]
-        ctx.check("file.timeline", not miss, site=dict(site, what="tempo"), case=case, observed=bt, expected=[t for t, _ in bp])
+        miss = [t - base for t, _ in bp if not any(abs(t - base - u) <= tol for u in bt)]
+        ctx.check("file.timeline", not miss, site=dict(site, what="tempo"), case=case, observed=bt, expected=[t - base for t, _ in bp])
